@@ -4,15 +4,20 @@ Public entry points (used by C04; C13 and others may call them):
     gen_model(src, **opts)        -> model (plain JSON, see below); acyclic by construction
     to_xml(model)                 -> DMN 1.3 <definitions> text
     invocables(model)             -> [names] in the order the driver reports them (decisions, BKMs, services)
-    closure(model, name)          -> requirement closure of an invocable: {"inputs","decisions","knowledge","inner","params"}
+    closure(model, name)          -> requirement closure of an invocable: {"inputs","decisions","knowledge","inner","params",
+                                     "dangling"} (dangling: names the logic mentions although they are not required)
     gen_input(src, model, name)   -> input context [[entry name, wire value]...] with a conforming value for everything
                                      `name` needs (input data of its closure / BKM parameters / service parameters)
-    gen_case(src, n_inputs=3)     -> {"model","xml","invocables","targets":[{"name","inputs":[ctx...]}]}
+    gen_case(src, n_inputs=3, **opts) -> {"model","xml","invocables","targets":[{"name","inputs":[ctx...]}]}
+                                     opts: fd_ok=False leaves out boxed function definitions (models with them are mostly
+                                     refused by the SUT: finding C04/boxed-function-definition); shape=<one of SHAPES>
 
 Model:
   {"inputs":    [{"name", "type"}]                          type: number|string|boolean|tNumList|tPoint
-   "bkms":      [{"name","params":[[pname, typeRef|None]...],"reqK":[names],"logic":L,"type":typeRef|None}]
-   "decisions": [{"name","reqI":[..],"reqD":[..],"reqK":[..],"logic":L,"type":typeRef|None}]
+   "bkms":      [{"name","params":[[pname, typeRef|None]...],"pk":[intended type of each parameter],"reqK":[names],"logic":L,
+                  "type":typeRef|None}]
+   "decisions": [{"name","reqI":[..],"reqD":[..],"reqK":[..],"logic":L,"type":typeRef|None,"vk":intended type of the value|None,
+                  "dangling":[names mentioned but not required]}]
    "services":  [{"name","inI":[..],"inD":[..],"enc":[..],"out":[..]}]
    "order":     [[kind, name]...]   creation order (an element requires only earlier ones)
    "shape":     label of the forced shape class}
@@ -485,6 +490,8 @@ def gen_model(src, fd_ok=True, shape=None):
               (2, "bkm-by-invocation"), (1, "bkm-requires-service")] + ([(1, "fundef")] if fd_ok else [])
     shape = shape or s.weighted(shapes)
     g.m["shape"] = shape
+    # boxed function definitions elsewhere than in the `fundef` shape are rare: the SUT refuses such models as a whole
+    g.b.fd_ok = fd_ok and (shape == "fundef" or s.bool(0.04))
     n_in = s.int(1, 4)
     for i in range(n_in):
         g.add_input(0 if i == 0 else None)
